@@ -114,8 +114,9 @@ Theorem C15_prune_prefix_duplicates : exists t f, wf t /\ ~ NoDup (snd (prune_pr
 Proof. exact prune_prefix_duplicates. Qed.
 Print Assumptions C15_prune_prefix_duplicates.
 
-(* The pinned tree before fixes/C15-range-unrelated.patch: Range between blocks on different
-   forks answered a list that is not a parent-linked chain. *)
+(* The pinned tree before repo commit 58bc1d7a3 "fix: BlockTree.Range fails when the start block
+   is not an ancestor of the end block": Range between blocks on different forks answered a
+   list that is not a parent-linked chain. *)
 Theorem C15_range_prefix_refuted :
   exists t p q, wf t /\ check_range (abs t) p q (range_prefix t p q) = false
                 /\ check_range_in_memory (abs t) p q (range_in_memory_prefix t p q) = false.
